@@ -63,7 +63,7 @@ def main():
         res["caught_by"] = caught
         print(json.dumps({"change": d, "summary": meta.get("summary"), **res}, indent=1))
         if confirmed:
-            dest = os.path.join(ROOT, "seeded", f"{meta.get('property', pids[0])}-{os.path.basename(wt)}-{name}")
+            dest = os.path.join(ROOT, "seeded", f"{meta.get('property', pids[0])}-{os.environ.get('SEED_ROUND', os.path.basename(wt))}-{name}")
             os.makedirs(dest, exist_ok=True)
             shutil.copy(patch, dest)
             shutil.copy(os.path.join(d, "demo.py"), dest)
